@@ -157,7 +157,24 @@ type mapCfg struct {
 }
 
 // bounded universes of the map tours (quick, thorough)
+// mapTourCfgs: the universes of the map tours; the default-constructor entry stands for every key type of the tier
 func mapTourCfgs(kind string, quick bool) []mapCfg {
+	var out []mapCfg
+	for _, c := range mapTourCfgs0(kind, quick) {
+		if c.cmp != "dflt" {
+			out = append(out, c)
+			continue
+		}
+		for _, v := range dfltVariants(quick) {
+			d := c
+			d.cmp = v
+			out = append(out, d)
+		}
+	}
+	return out
+}
+
+func mapTourCfgs0(kind string, quick bool) []mapCfg {
 	q := func(a, b int) int {
 		if quick {
 			return a
@@ -189,6 +206,10 @@ func jobMap(j *jobCtx) {
 		if !j.want(k) {
 			continue
 		}
+		// scripted histories first (fixed cost), so that a tour that explodes on a changed tree cannot starve them
+		bigMap(j, k, j.r)
+		scaleMap(j, k)
+		churnMap(j, k)
 		if k == "btree" {
 			for _, bad := range []int{2, 1, 0, -3} {
 				bad := bad
@@ -229,7 +250,6 @@ func jobMap(j *jobCtx) {
 				}
 			}
 		}
-		bigMap(j, k, j.r)
 	}
 }
 
@@ -238,6 +258,10 @@ func jobSeq(j *jobCtx) {
 		if !j.want(k) {
 			continue
 		}
+		// scripted histories first (fixed cost), so that a tour that explodes on a changed tree cannot starve them
+		bigSeq(j, k)
+		scaleSeq(j, k)
+		churnSeq(j, k)
 		// (1) exhaustive tour: values {1,2,3}, every index class, argument lists of length 0..2
 		u := &seqUniverse{kind: k, vals: []int{0, 1, 2}, maxLen: 3, argLen: 2, cmps: []string{"nat", "rev", "half", "natx", "halfx"}, huge: true}
 		if !j.quick() {
@@ -261,7 +285,6 @@ func jobSeq(j *jobCtx) {
 		}
 		randomRun(&seqRandom{kind: k, nval: 5}, j.r, n, 120)
 		// (4) large structured histories
-		bigSeq(j, k)
 	}
 }
 
@@ -270,6 +293,10 @@ func jobQue(j *jobCtx) {
 		if !j.want(k) {
 			continue
 		}
+		// scripted histories first (fixed cost), so that a tour that explodes on a changed tree cannot starve them
+		bigQue(j, k)
+		scaleQue(j, k)
+		churnQue(j, k)
 		caps := []int{0}
 		if k == "circularbuffer" {
 			for _, bad := range []int{0, -1, -1 << 40} {
@@ -311,7 +338,6 @@ func jobQue(j *jobCtx) {
 				j.edges += e
 			}
 		}
-		bigQue(j, k)
 	}
 }
 
@@ -320,6 +346,9 @@ func jobSet(j *jobCtx) {
 		if !j.want(k) {
 			continue
 		}
+		// scripted histories first (fixed cost), so that a tour that explodes on a changed tree cannot starve them
+		bigSet(j, k)
+		scaleSet(j, k)
 		type sc struct {
 			cmp string
 			n   int
@@ -334,10 +363,16 @@ func jobSet(j *jobCtx) {
 			cfgs = []sc{{"", 5}}
 		}
 		for _, c := range cfgs {
-			u := &setUniverse{kind: k, cmp: c.cmp, n: c.n, argLen: 3}
-			s, e := tour(u, j.maxStates())
-			j.states += s
-			j.edges += e
+			cmps := []string{c.cmp}
+			if c.cmp == "dflt" {
+				cmps = dfltVariants(j.quick()) // New(): every element type of the tier
+			}
+			for _, cmp := range cmps {
+				u := &setUniverse{kind: k, cmp: cmp, n: c.n, argLen: 3}
+				s, e := tour(u, j.maxStates())
+				j.states += s
+				j.edges += e
+			}
 		}
 		n := 20
 		if !j.quick() {
@@ -349,7 +384,6 @@ func jobSet(j *jobCtx) {
 				break
 			}
 		}
-		bigSet(j, k)
 	}
 }
 
@@ -358,6 +392,10 @@ func jobHeap(j *jobCtx) {
 		if !j.want(k) {
 			continue
 		}
+		// scripted histories first (fixed cost), so that a tour that explodes on a changed tree cannot starve them
+		bigHeap(j, k)
+		scaleHeap(j, k)
+		churnHeap(j, k)
 		for _, cmp := range []string{"prio", "maxpriox", "prioid"} {
 			u := &heapUniverse{kind: k, cmp: cmp, elems: []int{11, 12, 21, 22, 31}, maxLen: 3}
 			if baseCmp(cmp) == "prio" || !j.quick() {
@@ -375,6 +413,5 @@ func jobHeap(j *jobCtx) {
 			}
 			randomRun(&heapRandom{kind: k, cmp: cmp, np: 4}, j.r, n, 150)
 		}
-		bigHeap(j, k)
 	}
 }
